@@ -40,6 +40,10 @@ pub struct C13 {
     pair_client: HashMap<EpId, u64>,
     /// genuine intact datagrams delivered: (dst, at) -> (dcid, pkts)
     delivered: HashMap<(EpId, u64), Vec<(Vec<u8>, Vec<(Space, u64)>)>>,
+    /// the same with the datagram length, for attributing endpoint-level drop events
+    delivered_len: HashMap<(EpId, u64), Vec<(usize, Vec<u8>, Vec<(Space, u64)>)>>,
+    /// (dst, at, len) of datagrams that are not genuine (garbled in flight, injected)
+    garbage_len: std::collections::HashSet<(EpId, u64, usize)>,
     cid_len: Vec<usize>,
     max_mtu: Vec<u16>,
 }
@@ -52,6 +56,8 @@ impl C13 {
             pair_server: HashMap::new(),
             pair_client: HashMap::new(),
             delivered: HashMap::new(),
+            delivered_len: HashMap::new(),
+            garbage_len: Default::default(),
             cid_len: std::iter::once(p.server.cid_len)
                 .chain(p.clients.iter().map(|c| c.cfg.cid_len))
                 .collect(),
@@ -109,10 +115,19 @@ impl Monitor for C13 {
             Evt::Closed(_) => {
                 self.conns.entry((ep, conn)).or_default().closed = true;
             }
-            Evt::EndpointDatagramDropped { reason, .. } if reason.contains("UnknownDestinationConnectionId") => {
-                // was a genuine datagram for a live, unretired id delivered right now?
-                if let Some(list) = self.delivered.get(&(ep, t)) {
-                    for (dcid, pkts) in list {
+            Evt::EndpointDatagramDropped { reason, len } if reason.contains("UnknownDestinationConnectionId") => {
+                // was a genuine datagram for a live, unretired id delivered right now? The event
+                // carries the datagram's length: blame a genuine datagram only when no garbled or
+                // injected datagram of that length arrived at the same instant.
+                let len = *len as usize;
+                if self.garbage_len.contains(&(ep, t, len)) {
+                    return;
+                }
+                if let Some(list) = self.delivered_len.get(&(ep, t)) {
+                    for (dlen, dcid, pkts) in list {
+                        if *dlen != len {
+                            continue;
+                        }
                         if let Some((oc, seq)) = self.owner.get(&(ep, dcid.clone())) {
                             let c = &self.conns[&(ep, *oc)];
                             let retired = c.retired_by_peer.contains(seq) || *seq < c.max_rpt_sent;
@@ -123,7 +138,7 @@ impl Monitor for C13 {
                                     format!(
                                         "ep{ep}: a genuine datagram addressed to connection id seq {seq} of c{oc} (not retired) was dropped as unknown destination connection id"
                                     ),
-                                    json!({"ep": ep, "conn": oc, "seq": seq, "t": t, "pkts": format!("{pkts:?}")}),
+                                    json!({"ep": ep, "conn": oc, "seq": seq, "t": t, "len": len, "pkts": format!("{pkts:?}")}),
                                 );
                             }
                         }
@@ -338,10 +353,18 @@ impl Monitor for C13 {
     }
 
     fn on_delivered(&mut self, _cx: &mut Ctx, w: &Wire, at: u64) {
-        if w.injected || w.pkts.is_empty() || w.bytes.is_empty() {
+        let Some(dst) = w.dst else { return };
+        if w.injected || w.pkts.is_empty() {
+            self.garbage_len.insert((dst, at, w.bytes.len()));
+            if self.garbage_len.len() > 8192 {
+                let cutoff = at.saturating_sub(2_000_000);
+                self.garbage_len.retain(|(_, t, _)| *t >= cutoff);
+            }
             return;
         }
-        let Some(dst) = w.dst else { return };
+        if w.bytes.is_empty() {
+            return;
+        }
         if dst >= crate::app::PROBER_BASE {
             return;
         }
@@ -360,13 +383,16 @@ impl Monitor for C13 {
                 _ => return,
             }
         };
-        self.delivered
+        let pkts: Vec<(Space, u64)> = w.pkts.iter().map(|(_, s, pn)| (*s, *pn)).collect();
+        self.delivered_len
             .entry((dst, at))
             .or_default()
-            .push((dcid, w.pkts.iter().map(|(_, s, pn)| (*s, *pn)).collect()));
+            .push((w.bytes.len(), dcid.clone(), pkts.clone()));
+        self.delivered.entry((dst, at)).or_default().push((dcid, pkts));
         if self.delivered.len() > 4096 {
             let cutoff = at.saturating_sub(2_000_000);
             self.delivered.retain(|(_, t), _| *t >= cutoff);
+            self.delivered_len.retain(|(_, t), _| *t >= cutoff);
         }
     }
 
